@@ -229,8 +229,8 @@ CHECKS = {
         design="DESIGN.md section 4, C08"),
     "C09": dict(
         category="fault_enumeration",
-        technique="mutation sweep through a fork server around the tree's own loader (ASan+UBSan), sampled CLI runs of the sanitizer build, and kill-point enumeration of the save sequence (LD_PRELOAD shim) with a syscall-trace order check",
-        engine="hypothesis-cli + native/loader_harness.c",
+        technique="mutation sweep through a fork server around the tree's own loader (ASan+UBSan), a coverage-guided libFuzzer campaign on the same loader in-process (CRC oracle in the target), sampled CLI runs of the sanitizer build, and kill-point enumeration of the save sequence (LD_PRELOAD shim) with a syscall-trace order check",
+        engine="hypothesis-cli + native/loader_harness.c + libFuzzer (native/content_fuzz.c)",
         text="Seed content files reached by random histories and synthesised with boundary values (both formats, all record kinds) are "
              "mutated inside the property's domain -- truncations, single-bit flips, byte substitutions, random multi-byte damage incl. "
              "varint-boundary patterns -- and each mutation is loaded in a forked child of an ASan/UBSan build of state_read: never "
@@ -240,8 +240,8 @@ CHECKS = {
              "state-changing calls: every copy stays a complete old, intermediate or new version; the trace shows write, fsync and a "
              "full read-back before each rename; after success all copies are identical and no .tmp is left.",
         note="Multi-byte mutations whose CRC-32C still matches are exempted (independent CRC); signal 9 / out-of-memory is inconclusive; "
-             "durability against power loss is not simulated (order only). The libFuzzer target planned in DESIGN was not built: the "
-             "fork-server sweep with domain mutations already reaches the loader at ~3k loads/s/core.",
+             "durability against power loss is not simulated (order only). The libFuzzer campaign (30 s x 16 jobs quick, 15 min thorough) "
+             "counts only crash-/leak- artifacts that reproduce 3 times from the saved input; oom/timeout/slow-unit artifacts are load noise.",
         design="DESIGN.md section 4, C09"),
     "C16": dict(
         category="other",
